@@ -95,6 +95,12 @@ claim("C07", "fault_enumeration", "group",
       "Held on the executions of the run. The final-commit clause is only judged when the member's commit path was not disturbed by injected faults; 'exactly one claim unless the session is ending' is judged as at-most-one plus counters.",
       "DESIGN.md §7 C07")
 
+claim("C19", "fault_enumeration", "admin",
+      "runtime monitor of the real ClusterAdmin against the simulated cluster's admin side: every admin request is logged at the broker that received it (was it controller / leader / coordinator then, what it answered), return values are judged by a reference model per operation",
+      "Enumerated (operation x Admin.Retry.Max in {0,1,2,5} x controller moves 0..Retry.Max+1 x 16 error codes at top and item level, omitted items, dropped connections), leader/coordinator-bound operations spread over 1-4 brokers, 9 Kafka versions incl. below-minimum, shared and concurrently used admins, plus seeded random cases; ~4 100 admin calls in quick, ~49 000 in thorough. State changes at the cluster are compared with the reported outcome.",
+      "Held on the calls of the run. ListPartitionReassignments is only exercised fault-free (not among the statement's controller-bound operations); DescribeLogDirs for unknown broker ids is not generated; client-side connection errors under concurrent callers are counted, not judged.",
+      "DESIGN.md §7 C19")
+
 def main():
     props = [json.loads(l) for l in open(os.path.join(HERE, "properties.jsonl"))]
     ids = [p["id"] for p in props]
